@@ -187,6 +187,26 @@ def _member(v, path, out, depth):
         mutable_members(v, path, out, depth + 1)
 
 
+def process_globals_snapshot():
+    """Interpreter-wide settings a codec has no business changing: the
+    warnings filter list, the decimal context's precision/rounding/traps
+    (not its sticky flags, which arithmetic sets legitimately), the recursion
+    limit and switch interval, the locale."""
+    import decimal
+    import locale
+    import warnings
+    ctx = decimal.getcontext()
+    return {
+        'warnings.filters': [repr(f) for f in warnings.filters],
+        'decimal context': [ctx.prec, ctx.rounding, ctx.Emin, ctx.Emax,
+                            sorted(str(k) for k, v in ctx.traps.items()
+                                   if v)],
+        'recursion limit': sys.getrecursionlimit(),
+        'switch interval': sys.getswitchinterval(),
+        'locale': list(locale.getlocale()),
+    }
+
+
 class OpRecord:
     __slots__ = ('tid', 'idx', 'op', 'inv', 'ret', 'res', 'live', 'inp',
                  'cancelled', 'dirty', 'switch_at_inv', 'snap_before',
@@ -712,6 +732,7 @@ class RunB:
         self.model_switch = bool(tr.get('switch0', False))
         lib.encode.support_deprecated_rabbitmq(self.model_switch)
         const_before = constants_snapshot()
+        self.globals_before = process_globals_snapshot()
         self.ev('start', n, self.zone, self.model_switch,
                 [len(p) for p in tr['threads']])
         threads = [threading.Thread(target=self.worker, args=(t,),
@@ -931,6 +952,17 @@ class RunB:
                           'a class-level constant (valid_responses, flags, '
                           'Heartbeat.value, a mapping) changed during the '
                           'run')
+            if 'C16' in props:
+                g_after = process_globals_snapshot()
+                g_before = getattr(self, 'globals_before', g_after)
+                diff = sorted(k for k in g_after if g_after[k] != g_before[k])
+                if diff:
+                    self.fail('C16', 'constants', ['process-globals-changed',
+                                                   diff[0]],
+                              'the run left interpreter-wide state changed: '
+                              '%s (before %r, after %r)' % (
+                                  ', '.join(diff), g_before[diff[0]],
+                                  g_after[diff[0]]))
             if bool(lib.encode.DEPRECATED_RABBITMQ_SUPPORT) != \
                     self.model_switch:
                 self.fail('C16', 'switch', ['switch-state'],
